@@ -165,7 +165,8 @@ func (v Fix128Value) MeteredString(
 func (v Fix128Value) ToInt() int {
 	// TODO: Maybe compute this without the use of `big.Int`
 	fix128BigInt := v.ToBigInt()
-	integerPart := fix128BigInt.Div(fix128BigInt, sema.Fix128FactorIntBig)
+	// Truncate toward zero (like the conversions of Fix64), instead of rounding toward negative infinity.
+	integerPart := fix128BigInt.Quo(fix128BigInt, sema.Fix128FactorIntBig)
 
 	if !integerPart.IsInt64() {
 		panic(&OverflowError{})
